@@ -89,6 +89,10 @@ def cells(tier, seed):
                                             "time_obs": tobs, "grids": "equal", "map": "none", "solver": solver, "cat": k})
                         out.append({"kind": "timedep", "form": form, "N": N, "tgrid": tg, "K": K, "method": "forward_euler",
                                     "time_obs": "final", "grids": "equal", "map": "none", "solver": "sparse-op", "cat": k})
+        # E1 add-on: grid / observation-time re-assignment histories on ONE live PDE object (non-initial states)
+        for cls in ("steady", "timedep"):
+            for form in ((STEADY_FORMS[:2] if q else STEADY_FORMS) if cls == "steady" else (TD_FORMS[:2] if q else TD_FORMS)):
+                out.append({"kind": "regrid", "cls": cls, "form": form, "N": 6 if cls == "steady" else 5, "cat": k, "depth": 3 if q else 4})
         for prob, dims in (("Poisson1D", (6, 9)), ("Heat1D", (5, 8))):
             for dim in dims:
                 for field in ("None", "Step", "KL"):
@@ -816,6 +820,71 @@ def _eval_shipped(cell, res):
     res.sample = {"reference_output": cands[0] if cands else None}
 
 
+def _eval_regrid(cell, res):
+    """All sequences (length <= depth) over {grid_sol := g_j, grid_obs := h_j, observe} on one live PDE object; after
+    every step assemble-solve-observe on the live object must equal a FRESHLY constructed object with the current
+    (grid_sol, grid_obs) - the differential oracle for derived flags such as 'grids coincide'."""
+    import itertools
+    import cuqi
+    N, k, cls = cell["N"], cell["cat"], cell["cls"]
+    g, dx = _grid(N)
+    sols = [g.copy(), 1.2 * g - 0.1]          # same length (the discretisation is fixed), other nodes covering the same range
+    obss = [None, g[1::2].copy(), np.array([0.21, 0.48, 0.77]), 0.9 * g + 0.03]
+    if cls == "steady":
+        form, xs, pdim = _steady_form(cell["form"], N, k)
+        make = lambda gs, go: cuqi.pde.SteadyStateLinearPDE(form, grid_sol=gs, grid_obs=go)
+        comp = "SteadyStateLinearPDE"
+    else:
+        form, xs, pdim, t0 = _td_form(cell["form"], N, k)
+        times = _times("uniform", 3, t0)
+        make = lambda gs, go: cuqi.pde.TimeDependentLinearPDE(form, times, grid_sol=gs, grid_obs=go, method="backward_euler")
+        comp = "TimeDependentLinearPDE"
+    ops = [("sol", 0), ("sol", 1)] + [("obs", j) for j in range(len(obss))] + [("run", None)]
+
+    def run(pde):
+        pde.assemble(xs[0])
+        sol, info = pde.solve()
+        return np.asarray(pde.observe(sol), dtype=float)
+    reported = set()
+    for L in range(1, cell["depth"] + 1):
+        for seq in itertools.product(range(len(ops)), repeat=L):
+            if not any(ops[i][0] != "run" for i in seq) or (L > 1 and ops[seq[-1]][0] == "run" and ops[seq[-2]][0] == "run"):
+                continue
+            cur = {"sol": sols[0], "obs": sols[0]}      # grid_obs=None resolves to the solution grid of that moment
+            live = make(sols[0].copy(), None)
+            hist = []
+            for oi in seq:
+                name, j = ops[oi]
+                res.transitions += 1
+                try:
+                    if name == "run":
+                        run(live)
+                        hist.append("run")
+                        continue
+                    val = (sols if name == "sol" else obss)[j]
+                    hist.append("grid_%s:=%s" % (name, "abcd"[j]))
+                    setattr(live, "grid_" + name, None if val is None else val.copy())
+                    cur[name] = val if val is not None else cur["sol"]
+                    fresh = make(cur["sol"].copy(), cur["obs"].copy())
+                    a, b = run(live), run(fresh)
+                except Exception as e:
+                    res.refused += 1
+                    res.outcomes.add("regrid-raises:%s" % type(e).__name__)
+                    break
+                res.state((name, j, tuple(np.round(cur["sol"][:2], 6)), len(cur["obs"])))
+                res.evaluations += 1
+                if a.shape != b.shape or not close(a, b, 1e-10):
+                    sig = "C18|%s|observe-after-regrid|attr=grid_%s" % (comp, name)
+                    if sig not in reported:
+                        reported.add(sig)
+                        res.fail(sig, "after the history %s the observation of the live object (shape %s) differs from a freshly "
+                                 "constructed object with the same grids (shape %s)" % (hist, a.shape, b.shape), focus={"history": list(hist)})
+                    break
+            res.traces += 1
+    res.outcomes.add("regrid:%s:%s:%d" % (cls, cell["form"], len(reported)))
+    res.sample = {"class": comp, "form": cell["form"], "last_history": hist}
+
+
 def eval_cell(cell):
     res = CellResult(cell)
     if cell["kind"] == "steady":
@@ -824,6 +893,8 @@ def eval_cell(cell):
         _eval_timedep(cell, res)
     elif cell["kind"] == "shipped":
         _eval_shipped(cell, res)
+    elif cell["kind"] == "regrid":
+        _eval_regrid(cell, res)
     else:
         raise ValueError(cell["kind"])
     return res
